@@ -31,6 +31,8 @@ pub struct Scenario {
     pub short_reads: usize,
     /// the source signals the end with a bare Ok(0) (no empty fill)
     pub bare_eof: bool,
+    /// every k-th read hands over an empty block before the data (a source chaining inner sources)
+    pub empty_fill_every: usize,
 }
 
 impl Scenario {
@@ -41,7 +43,7 @@ impl Scenario {
             "pcm_hash": format!("{:016x}", prng::hash_i32s(&self.audio.samples)),
             "block": self.block, "frames": (self.audio.frames() + self.block - 1) / self.block,
             "workers": self.workers, "env_FLACENC_WORKERS": self.env, "policy": format!("{:?}", self.policy),
-            "faults": format!("{:?}", self.faults), "fill": format!("{:?}", self.mode), "config": gen::describe_config(&self.cfg), "short_read_every": self.short_reads, "bare_eof": self.bare_eof,
+            "faults": format!("{:?}", self.faults), "fill": format!("{:?}", self.mode), "config": gen::describe_config(&self.cfg), "short_read_every": self.short_reads, "bare_eof": self.bare_eof, "empty_fill_every": self.empty_fill_every,
         })
     }
 }
@@ -104,6 +106,7 @@ fn gen_c05_long(seed: u64, idx: u64) -> Scenario {
         label: format!("long#{idx}"),
         short_reads: 0,
         bare_eof: false,
+        empty_fill_every: 0,
     }
 }
 
@@ -131,6 +134,7 @@ fn gen_c05_big(seed: u64, idx: u64) -> Scenario {
         label: format!("big#{idx}"),
         short_reads: 0,
         bare_eof: false,
+        empty_fill_every: 0,
     }
 }
 
@@ -181,6 +185,8 @@ pub fn gen_c05(seed: u64, sub: &str, idx: u64) -> Scenario {
         // one scheduled scenario in eight reads from a pipe-style source (short reads mid-stream)
         short_reads: if sub == "sched" && idx % 8 == 5 { 2 + (idx as usize / 8) % 3 } else { 0 },
         bare_eof: idx % 4 == 1,
+        // one scheduled scenario in eight reads from a chain of inner sources
+        empty_fill_every: if sub == "sched" && idx % 8 == 6 { 2 + (idx as usize / 8) % 3 } else { 0 },
     }
 }
 
@@ -293,6 +299,8 @@ pub fn gen_c06(seed: u64, tier: Tier, sub: &str, idx: u64) -> Scenario {
         label,
         short_reads: 0,
         bare_eof: idx % 4 == 2,
+        // fault-free and env scenarios: one in five reads from a chain of inner sources
+        empty_fill_every: if (sub == "faultfree" || sub == "env") && idx % 5 == 3 { 2 + (idx as usize / 5) % 3 } else { 0 },
     }
 }
 
@@ -312,6 +320,7 @@ fn run_encode(cfg: &config::Encoder, sc: &Scenario, multithread: bool) -> Result
     let mut src = TestSource::new(Arc::clone(&sc.audio), sc.mode, sc.hint && sc.short_reads == 0).with_faults(sc.faults.clone());
     src.short_reads = sc.short_reads;
     src.bare_eof = sc.bare_eof;
+    src.empty_fill_every = sc.empty_fill_every;
     let stream = enc::encode_stream(&v, src, sc.block)?;
     enc::to_bytes(&stream).map_err(|e| EncErr::Api("Serialise", format!("{e:?}").chars().take(200).collect()))
 }
